@@ -257,6 +257,9 @@ def sig_class(desc):
     if "tee:method:receiver" in ctx:
         return "tainted-receiver-of-unresolved-call", "-"
     stripped = [tg._strip_label(x) for x in seq]
+    if stripped and stripped[-1] in ("nest_obj2", "nest_dict2") and \
+            (any(c.startswith(("pre:", "src:param")) for c in ctx) or any(x in tg.DESCEND_LINKS for x in stripped)):
+        return "nested-holder-inside-function", "-"
     if "global_import" in stripped:
         ctx.discard("start_mod")
     if "global_write@mod" in seq:
@@ -410,6 +413,9 @@ def sweep_specs(avoid_kinds):
         if k in ("merge_src", "tee"):
             continue
         add(k, {"links": [{"k": k}]})
+    for k in ("nest_obj2", "nest_dict2"):       # the sink argument holds the value two levels down (always the last link)
+        add(k, {"links": [{"k": k}]})
+        add("assign+" + k, {"links": [{"k": "assign"}, {"k": k}]})
     add("binop_merge", {"links": [{"k": "merge_src", "src": src if src != "param" else "method"}]})
     add("tee", {"links": [{"k": "tee", "snk": {"kind": "call", "pos": "arg0", "nargs": 1}}]})
     for k in ("param", "param_kw", "method_param", "call_id", "call_kw", "call_second", "ctor_field"):
